@@ -149,25 +149,27 @@ def runAdd (e : Env) (parent : Hash) (s : St) (a : Add) : St :=
 def childReq (r : Req) (c : Hash × Nat) : Req :=
   { hash := c.1, data := none, raw := false, parents := [r.hash], depth := r.depth + c.2, deps := 0, cb := r.cb }
 
-/-- the node branch of `Process` after a successful decode: `request.data = item.Data`, `children`, then
-commit or schedule -/
+/-- the node branch of `Process` after `children` has run the leaf callback's additions `adds`:
+collect the missing children, then commit or schedule -/
+def processTail (e : Env) (s0 : St) (r : Req) (v : NodeView) (adds : List Add) : St × Option Err × Bool :=
+  let s1 := adds.foldl (runAdd e r.hash) s0
+  let news := v.children.filter (fun c => !(s1.inStore c.1))
+  match findReq s1.requests r.hash with
+  | none => (s1, none, false)
+  | some r1 =>
+    if news.isEmpty && r1.deps == 0 then (commitReq (s1.requests.length + 1) s1 r1, none, true)
+    else
+      let s2 : St := { s1 with requests := setReq s1.requests { r1 with deps := r1.deps + news.length } }
+      (news.foldl (fun s c => schedule s (childReq r1 c)) s2, none, false)
+
+/-- the node branch of `Process` after a successful decode: `request.data = item.Data`, `children` (leaf
+callback first: a callback error aborts with nothing but the data set), then commit or schedule -/
 def processNode (e : Env) (s : St) (r : Req) (b : Blob) (v : NodeView) : St × Option Err × Bool :=
   let s0 : St := { s with requests := setReq s.requests { r with data := some b } }
   match (if r.cb then v.leaf else none) with
   | some .err => (s0, some .callback, false)
-  | lf =>
-    let adds := match lf with
-      | some (.adds l) => l
-      | _ => []
-    let s1 := adds.foldl (runAdd e r.hash) s0
-    let news := v.children.filter (fun c => !(s1.inStore c.1))
-    match findReq s1.requests r.hash with
-    | none => (s1, none, false)
-    | some r1 =>
-      if news.isEmpty && r1.deps == 0 then (commitReq (s1.requests.length + 1) s1 r1, none, true)
-      else
-        let s2 : St := { s1 with requests := setReq s1.requests { r1 with deps := r1.deps + news.length } }
-        (news.foldl (fun s c => schedule s (childReq r1 c)) s2, none, false)
+  | some (.adds l) => processTail e s0 r v l
+  | none => processTail e s0 r v []
 
 def processOne (e : Env) (s : St) (h : Hash) (b : Blob) : St × Option Err × Bool :=
   match findReq s.requests h with
@@ -209,14 +211,17 @@ def nonIncreasing : List Nat → Bool
 /-- `Sync.Missing(max)` pops from a priority queue whose order among equal priorities is an implementation
 detail of `prque`; the model takes the popped list as given and checks that it is a legal answer:
 the right number of distinct queued hashes, highest priority first. -/
-def missing (s : St) (max : Nat) (popped : List Hash) : Option St :=
-  let want := if max == 0 then s.queue.length else min max s.queue.length
+def missingQueue (q : List (Hash × Nat)) (max : Nat) (popped : List Hash) : Option (List (Hash × Nat)) :=
+  let want := if max == 0 then q.length else min max q.length
   if popped.length != want then none else
-  match popAll s.queue popped with
+  match popAll q popped with
   | none => none
   | some (prios, rest) =>
     let lo := prios.foldl min (prios.headD 0)
-    if nonIncreasing prios && rest.all (fun x => decide (x.2 ≤ lo)) then some { s with queue := rest } else none
+    if nonIncreasing prios && rest.all (fun x => decide (x.2 ≤ lo)) then some rest else none
+
+def missing (s : St) (max : Nat) (popped : List Hash) : Option St :=
+  (missingQueue s.queue max popped).map (fun q => { s with queue := q })
 
 /-- `Sync.Commit` with a writer whose `Put` fails at index `k` (`none` = never): the first `k` entries of
 `membatch.order` are written; the membatch is dropped only if every `Put` succeeded. -/
